@@ -15,7 +15,7 @@ import (
 func init() { Registry["C07"] = C07 }
 
 var c07Names = []string{"x", "0y", "-z_9"} // names may start with a digit or a hyphen
-var c07Values = []string{"v", "a{2}", "[bc]+", "(?:p|q)", "{{0y}}w", "u{{-z_9}}", "{{0y}}{{-z_9}}", "{{0y}}-{{0y}}", "[$_a-z]+", `\$1x${n}`}
+var c07Values = []string{"v", "a{2}", "[bc]+", "(?:p|q)", "{{0y}}w", "u{{-z_9}}", "{{0y}}{{-z_9}}", "{{0y}}-{{0y}}", "[$_a-z]+", `\$1x${n}`, `""`, "w@"}
 
 // bodies: where the references stand
 var c07Bodies = [][]string{
@@ -33,6 +33,8 @@ var c07Bodies = [][]string{
 	// literal in the including file, and a name both define keeps the including file's value outside the include
 	{"{{w}}a", "##!> include defsw", "b{{w}}"},
 	{"{{x}}t", "##!> include defsx", "{{x}}u", "{{0y}}"},
+	// suffix pairs of an include line see the included text as written, definitions are expanded afterwards
+	{"##!> include tailx -- @ ~", "k"},
 }
 
 type c07Case struct {
@@ -74,6 +76,10 @@ func (c c07Case) program() (a string, b string) {
 		}
 		if l == "##!> include usesx" {
 			bl = append(bl, "a{{x}}b", "plain")
+			continue
+		}
+		if l == "##!> include tailx -- @ ~" {
+			bl = append(bl, "foo{{x}}", "plain~")
 			continue
 		}
 		if l == "##!> include defsw" || l == "##!> include defsx" {
@@ -173,6 +179,7 @@ type c07Out struct {
 func c07Tree() core.Tree {
 	t := c01Tree()
 	t["regex-assembly/include/usesx.ra"] = "a{{x}}b\nplain\n"
+	t["regex-assembly/include/tailx.ra"] = "foo{{x}}\nplain@\n"
 	t["regex-assembly/include/defsw.ra"] = "##!> define w inner\n{{w}}r\nplain\n"
 	t["regex-assembly/include/defsx.ra"] = "##!> define x inner\n{{x}}r\nplain\n"
 	return t
